@@ -218,6 +218,7 @@ func TestCompiles(t *testing.T) {
 		mc := modelCfg()
 		if backend == "fastgo" && vt.Known(prop, "fastgo-files-sharing-a-package") {
 			mc.SharedNS = false
+			mc.SameBase = false // files without a go namespace and with the same base name also share a package
 			vt.Excluded("fastgo-files-sharing-a-package")
 		}
 		p := idl.Gen(rt, mc)
